@@ -102,6 +102,18 @@ func NewCase(buildDir, dir string, p *pgen.Program, tweak func(*pgen.Spec)) (*Ca
 			return nil, err
 		}
 	}
+	// stages written in Python: a stub module per stage which calls the
+	// probe in library mode (run through the real adapters/python/martian_shell.py)
+	for _, st := range p.Stages {
+		if st.SrcLang == "py" {
+			md := filepath.Join(c.MroDir, st.Src)
+			os.MkdirAll(md, 0755)
+			text := strings.NewReplacer("@STAGE@", st.Name, "@PROBE@", filepath.Join(buildDir, "harness", "probe")).Replace(pyStub)
+			if err := os.WriteFile(filepath.Join(md, "__init__.py"), []byte(text), 0644); err != nil {
+				return nil, err
+			}
+		}
+	}
 	c.Spec = p.MakeSpec()
 	c.Spec.PsRoot = c.PsDir
 	if tweak != nil {
@@ -142,6 +154,67 @@ type RunResult struct {
 	RaceLogs  []string
 	StartT    int64
 	EndT      int64
+}
+
+// pyStub is the stage code of a Python probe stage.
+const pyStub = `"""Probe stage @STAGE@ (generated): behaviour comes from the Go probe in library mode."""
+import json
+import os
+import signal
+import subprocess
+import sys
+
+import martian
+
+STAGE = "@STAGE@"
+PROBE = "@PROBE@"
+
+
+def _probe(phase):
+    meta, files, journal = sys.argv[3], sys.argv[4], sys.argv[5]
+    subprocess.call([PROBE, "--lib", STAGE, phase, meta, files, journal])
+    with open(os.path.join(meta, "_probe_result")) as handle:
+        res = json.load(handle)
+    os.remove(os.path.join(meta, "_probe_result"))
+    fault = res.get("py_fault")
+    if fault == "py_raise":
+        raise RuntimeError("probe injected exception in " + res["job"])
+    if fault == "py_exit":
+        martian.exit("probe injected martian.exit in " + res["job"])
+    if fault == "py_throw":
+        martian.throw("probe injected martian.throw in " + res["job"])
+    if fault == "py_sysexit":
+        sys.exit(3)
+    if fault == "py_osexit":
+        os._exit(4)
+    if fault == "py_kill":
+        os.kill(os.getpid(), signal.SIGKILL)
+    return res
+
+
+def split(args):
+    return _probe("split")["stage_defs"]
+
+
+def main(args, outs):
+    for key, value in _probe("main")["outs"].items():
+        setattr(outs, key, value)
+
+
+def join(args, outs, chunk_defs, chunk_outs):
+    for key, value in _probe("join")["outs"].items():
+        setattr(outs, key, value)
+`
+
+// PyProbeSrc is ProbeSrc with the stages selected by py written in Python.
+func PyProbeSrc(buildDir string, py func(stage string) bool) func(string) (string, string) {
+	comp := ProbeSrc(buildDir)
+	return func(stage string) (string, string) {
+		if py(stage) {
+			return "py", "pyprobe_" + stage
+		}
+		return comp(stage)
+	}
 }
 
 func ProbeSrc(buildDir string) func(string) (string, string) {
